@@ -397,6 +397,15 @@ static FILE *open_file(char *path) {
   return out;
 }
 
+// Finishes an output file. A failed write (e.g. on a full disk) shows
+// up here at the latest, when the buffered data is written out.
+static void close_file(FILE *out, char *path) {
+  int failed = ferror(out);
+  failed |= (out == stdout) ? fflush(out) : fclose(out);
+  if (failed)
+    error("cannot write output file: %s: %s", path ? path : "-", strerror(errno));
+}
+
 static bool endswith(char *p, char *q) {
   int len1 = strlen(p);
   int len2 = strlen(q);
@@ -495,6 +504,7 @@ static void print_tokens(Token *tok) {
     prev = tok;
   }
   fprintf(out, "\n");
+  close_file(out, opt_o);
 }
 
 static bool in_std_include_path(char *path) {
@@ -544,6 +554,7 @@ static void print_dependencies(void) {
       fprintf(out, "%s:\n\n", quote_makefile(files[i]->name));
     }
   }
+  close_file(out, path);
 }
 
 static Token *must_tokenize_file(char *path) {
@@ -632,7 +643,7 @@ static void cc1(void) {
   // Write the asembly text to a file.
   FILE *out = open_file(output_file);
   fwrite(buf, buflen, 1, out);
-  fclose(out);
+  close_file(out, output_file);
 }
 
 static void assemble(char *input, char *output) {
